@@ -205,6 +205,14 @@ pub fn run_case(seed: u64, stream: u64, index: u64, cfg: &HistCfg, md: Option<&m
                 w.reps[i].drain1(); w.reps[i].drain2();
                 let gained: Vec<usize> = delivered[j].iter().filter(|x| !delivered[i].contains(x)).cloned().collect();
                 for g in gained { let b = msgs[g].v1.clone(); w.model_apply(i, &b); delivered[i].insert(g); }
+                // the relayed state also carries deletions that are in no message: entries the relay overwrote when IT integrated a
+                // concurrent map entry. They reach the receiver with the relay's delete set even when the overwriting entry itself
+                // ends up in the receiver's stash, so the model gets the delete set of the relayed update as well
+                {
+                    use yrs::updates::decoder::Decode;
+                    let upd = if v2 { yrs::Update::decode_v2(&bytes) } else { yrs::Update::decode_v1(&bytes) };
+                    if let Ok(u) = upd { use yrs::updates::encoder::{Encode, Encoder, EncoderV1}; use yrs::encoding::write::Write; let mut enc = EncoderV1::new(); enc.write_var(0u32); u.delete_set().encode(&mut enc); let ds_only = enc.to_vec(); w.model_apply(i, &ds_only); }
+                }
                 w.check_state(i, "state relay");
                 *w.out.stats.entry("state_relays".into()).or_insert(0) += 1;
                 continue;
